@@ -23,6 +23,17 @@ func (b *embeddedBackend) Close() error {
 	return nil
 }
 
+// update runs a read-modify-write transaction and retries it when the engine
+// reports a commit-time conflict with a concurrent transaction.
+func (b *embeddedBackend) update(fn func(txn *NoKV.Txn) error) error {
+	for attempt := 0; ; attempt++ {
+		err := b.db.Update(fn)
+		if !errors.Is(err, utils.ErrConflict) || attempt >= 63 {
+			return err
+		}
+	}
+}
+
 func (b *embeddedBackend) Get(key []byte) (*redisValue, error) {
 	entry, err := b.db.Get(key)
 	if err != nil {
@@ -50,7 +61,7 @@ func (b *embeddedBackend) Set(args setArgs) (bool, error) {
 	if args.NX || args.XX {
 		// Guard the condition check and write inside a single transaction to keep the
 		// Redis semantics (read + write must be atomic).
-		err := b.db.Update(func(txn *NoKV.Txn) error {
+		err := b.update(func(txn *NoKV.Txn) error {
 			exists := false
 			item, err := txn.Get(args.Key)
 			switch {
@@ -102,7 +113,8 @@ func (b *embeddedBackend) Del(keys [][]byte) (int64, error) {
 	var removed int64
 	// Execute deletes for all keys inside a single transaction so the removal
 	// count matches the snapshot used for the writes.
-	err := b.db.Update(func(txn *NoKV.Txn) error {
+	err := b.update(func(txn *NoKV.Txn) error {
+		removed = 0
 		for _, key := range keys {
 			item, err := txn.Get(key)
 			switch {
@@ -217,7 +229,7 @@ func (b *embeddedBackend) Exists(keys [][]byte) (int64, error) {
 
 func (b *embeddedBackend) IncrBy(key []byte, delta int64) (int64, error) {
 	var result int64
-	err := b.db.Update(func(txn *NoKV.Txn) error {
+	err := b.update(func(txn *NoKV.Txn) error {
 		var (
 			current  int64
 			expires  uint64
